@@ -138,6 +138,18 @@ func secretSpellings() []any {
 	return []any{u, strings.ToLower(u), u + strings.Repeat("=", ref.B32Pad(len(u))), " " + u + "\n", "!!!notbase32", nil}
 }
 
+// lookAlikeSecrets: valid base32 texts that are also valid (or nearly valid) texts of another encoding.
+func lookAlikeSecrets() []string {
+	out := []string{"DEADBEEF", "CAFEBABECAFEBABE", "AAAAAAAAAAAAAAAA", "abcdef234567abcd", "22334455", "7777777777777777", "2345672345672345", "FEEDFACEDEADBEEF",
+		"ABCDEFAB", "23456723", "AAAAAAAA", "77777777", "AE", "AA", "A2", "ME", "MFRGG", "MFRGGZA", "mfrggzdf", " DEADBEEF ", "deadbeef\n",
+		strings.Repeat("A", 40), strings.Repeat("AB23", 16), strings.Repeat("F", 32), strings.Repeat("7", 128), strings.Repeat("ABCDEF234567", 4)[:40]}
+	for _, n := range []int{20, 32, 64} {
+		// the base32 text of an n-byte key of 0xAA.. and the hex-looking text of the same LENGTH as a hex key of n bytes
+		out = append(out, ref.B32Encode(patt(n, 0xAA)), strings.Repeat("BADC", n/2)[:2*n])
+	}
+	return out
+}
+
 type fieldAlpha struct {
 	name string
 	vals []any // nil entry = field absent
@@ -435,6 +447,29 @@ func c18Requests(thorough bool) map[string][]rreq {
 		}
 		ov = append(ov, rreq{Method: "POST", Path: "/ocra/validate", Fields: g})
 	}
+	// secrets whose base32 text also reads as something else (hexadecimal, decimal, base64, padded forms, other
+	// lengths): the service must hand the text to the library as it is, through all six code endpoints
+	for i, s := range lookAlikeSecrets() {
+		v, key := ref.B32Classify(strings.TrimSpace(s))
+		if v != ref.MustAccept {
+			continue
+		}
+		al := []string{"SHA1", "SHA256", "SHA512"}[i%3]
+		an := refAlgo(al)
+		out["/hotp/generate"] = append(out["/hotp/generate"], rreq{Method: "POST", Path: "/hotp/generate", Fields: map[string]any{"secret": s, "counter": 3 + i, "algorithm": al}})
+		out["/totp/generate"] = append(out["/totp/generate"], rreq{Method: "POST", Path: "/totp/generate", Fields: map[string]any{"secret": s, "timestamp": 1111111109 + i, "algorithm": al}})
+		hv = append(hv, rreq{Method: "POST", Path: "/hotp/validate", Fields: map[string]any{"secret": s, "counter": 3 + i, "algorithm": al, "code": ref.HOTP(key, uint64(3+i), 6, an)}},
+			rreq{Method: "POST", Path: "/hotp/validate", Fields: map[string]any{"secret": s, "counter": 3 + i, "algorithm": al, "code": ref.HOTP(key, uint64(4+i), 6, an)}})
+		tv = append(tv, rreq{Method: "POST", Path: "/totp/validate", Fields: map[string]any{"secret": s, "timestamp": 1111111109 + i, "algorithm": al, "code": ref.HOTP(key, ref.Step(int64(1111111109+i), 30), 6, an)}})
+		n := names[i%len(names)]
+		if rs, ok := ref.ParseSuite(n); ok {
+			sh := shapeOfRef(rs)
+			in := ocraInputFor(sh, i)
+			og = append(og, rreq{Method: "POST", Path: "/ocra/generate", Fields: map[string]any{"secret": s, "raw_suite": n, "input": in}})
+			ov = append(ov, rreq{Method: "POST", Path: "/ocra/validate", Fields: map[string]any{"secret": s, "raw_suite": n, "input": in, "code": ref.OCRA(key, rs, admissible(sh, i).ref())}})
+		}
+	}
+	out["/hotp/validate"], out["/totp/validate"] = hv, tv
 	out["/ocra/generate"], out["/ocra/validate"] = og, ov
 	var os1 []rreq
 	for _, n := range append(append([]string{}, names...), "OCRA-1:HOTP-SHA1-6:QN99", "", " ", "ocra-1:hotp-sha1-6:qn08") {
